@@ -1231,6 +1231,7 @@ func main() {
 			{Name: "rsa-odd-modulus-keysets", Body: rsaOddSection, Bound: -1},
 			{Name: "keysets-odd-io", Body: oddIOSection, Bound: oddIOBound()},
 			{Name: "keysets-large", Body: largeSection, Bound: -1},
+			{Name: "keymanager-only-private-keys", Body: kmOnlySection, Bound: -1, Serial: true},
 			{Name: "foreign-encodings", Body: foreignSection, Bound: -1},
 			{Name: "catalogue", Body: catalogueSection, Bound: -1},
 		})
